@@ -48,11 +48,14 @@ def dtype_table():
 
 
 _TAB = []
+FORCE_DTYPE = None      # when set, int_range_to_dtype returns it (a harness that bounds the sizes has checked that it is the one chosen)
 
 
 def s_int_range_to_dtype(min_value, max_value, force_signed=False):
     """symbolic model of moptipy.utils.nputils.int_range_to_dtype: dtype whose range is an ite over the
     thresholds; 'no type fits' is a forked ValueError outcome"""
+    if FORCE_DTYPE is not None:
+        return FORCE_DTYPE
     if not _TAB:
         _TAB.extend(dtype_table())
     if not core.is_sym(min_value) and not core.is_sym(max_value):
@@ -90,7 +93,9 @@ class _SuperProxy:
             def new(cls, shape, dtype):
                 shape = tuple(s.__index__() for s in shape)
                 arr = fresh_array(name, shape, dtype=dtype if isinstance(dtype, DType) else core.dtype_of(dtype), masq=masq)
-                if arr.dtype.lo is not None:
+                # np.empty semantics: arbitrary cells of the dtype.  For the instance matrix (every cell is overwritten
+                # by the constructor) the range assumption is left out: unconstrained cells only over-approximate.
+                if arr.dtype.lo is not None and name != "inst":
                     core.ENG.assume_fast(core.in_dtype(arr))
                 return arr
             return new
